@@ -19,3 +19,572 @@ Proof.
   assert (E : c = 97 \/ c = 98 \/ c = 99 \/ c = 100 \/ c = 101 \/ c = 102 \/ c = 103 \/ c = 104 \/ c = 105 \/ c = 106 \/ c = 107 \/ c = 108 \/ c = 109 \/ c = 110 \/ c = 111 \/ c = 112 \/ c = 113 \/ c = 114 \/ c = 115 \/ c = 116 \/ c = 117 \/ c = 118 \/ c = 119 \/ c = 120 \/ c = 121 \/ c = 122) by lia.
   repeat (destruct E as [E|E]; [subst c; reflexivity|]). subst c. reflexivity.
 Qed.
+
+(* ---------- written digits ---------- *)
+
+Lemma digit_char_rng up d : 0 <= d < 36 -> 48 <= digit_char up d < 128 /\ digit_char up d <> 95.
+Proof. unfold digit_char. intros H. destruct (d <? 10) eqn:E; [lia|]. destruct up; lia. Qed.
+
+Lemma digit_char_val up d : 0 <= d < 36 -> digit_val (digit_char up d) = Some d.
+Proof.
+  unfold digit_char, digit_val, in_rng. intros H. destruct (d <? 10) eqn:E.
+  - assert (X : ((48 <=? 48 + d) && (48 + d <=? 57)) = true) by lia. rewrite X. f_equal. lia.
+  - destruct up.
+    + assert (X : ((48 <=? 55 + d) && (55 + d <=? 57)) = false) by lia. rewrite X.
+      rewrite to_lower_upper by lia.
+      assert (Y : ((97 <=? 55 + d + 32) && (55 + d + 32 <=? 122)) = true) by lia. rewrite Y. f_equal. lia.
+    + assert (X : ((48 <=? 87 + d) && (87 + d <=? 57)) = false) by lia. rewrite X.
+      rewrite to_lower_lower by lia.
+      assert (Y : ((97 <=? 87 + d) && (87 + d <=? 122)) = true) by lia. rewrite Y. f_equal. lia.
+Qed.
+
+Lemma digit_char_hex up d : 0 <= d < 16 -> hex_val (digit_char up d) = Some d.
+Proof.
+  unfold digit_char, hex_val, in_rng. intros H. destruct (d <? 10) eqn:E.
+  - assert (X : ((48 <=? 48 + d) && (48 + d <=? 57)) = true) by lia. rewrite X. f_equal. lia.
+  - destruct up.
+    + assert (X : ((48 <=? 55 + d) && (55 + d <=? 57)) = false) by lia. rewrite X.
+      assert (Y : ((97 <=? 55 + d) && (55 + d <=? 102)) = false) by lia. rewrite Y.
+      assert (W : ((65 <=? 55 + d) && (55 + d <=? 70)) = true) by lia. rewrite W. f_equal. lia.
+    + assert (X : ((48 <=? 87 + d) && (87 + d <=? 57)) = false) by lia. rewrite X.
+      assert (Y : ((97 <=? 87 + d) && (87 + d <=? 102)) = true) by lia. rewrite Y. f_equal. lia.
+Qed.
+
+(* the digit loop of parseUBigInt, one step, in terms of digit_val *)
+Lemma parse_digits_cons base c t n :
+  parse_digits base (c :: t) n =
+  if c =? 95 then parse_digits base t n
+  else match digit_val c with
+       | Some d => if base <=? d then None else parse_digits base t (n * base + d)
+       | None => None
+       end.
+Proof. reflexivity. Qed.
+
+Lemma render_digits_cons w ws : render_digits (w :: ws) = render_digit w ++ render_digits ws.
+Proof. reflexivity. Qed.
+
+Lemma digits_value_cons b w ws acc : digits_value b (w :: ws) acc = digits_value b ws (acc * b + snd w).
+Proof. reflexivity. Qed.
+
+(* parseUBigInt's loop on a written numeral of base b <= 36: the positional value *)
+Lemma parse_digits_written b : 2 <= b <= 36 -> forall ws acc, Forall (wd_ok b) ws ->
+  parse_digits b (render_digits ws) acc = Some (digits_value b ws acc).
+Proof.
+  intros Hb. induction ws as [|[[u up] d] ws IH]; intros acc HF; [reflexivity|].
+  inversion HF as [|? ? Hw HT]; subst. unfold wd_ok in Hw. cbn [snd] in Hw.
+  rewrite render_digits_cons, digits_value_cons. cbn [snd].
+  destruct (digit_char_rng up d ltac:(lia)) as [R N95].
+  assert (Step : parse_digits b (digit_char up d :: render_digits ws) acc = Some (digits_value b ws (acc * b + d))).
+  { rewrite parse_digits_cons.
+    assert (X : (digit_char up d =? 95) = false) by lia. rewrite X.
+    rewrite digit_char_val by lia.
+    assert (Y : (b <=? d) = false) by lia. rewrite Y. apply IH. exact HT. }
+  unfold render_digit. destruct u; cbn [app].
+  - rewrite parse_digits_cons. change (95 =? 95) with true. cbv iota. exact Step.
+  - exact Step.
+Qed.
+
+(* ... and it rejects every string that contains a character which is neither `_` nor a digit
+   of the base, wherever it stands *)
+
+Lemma parse_digits_app b l1 l2 : forall acc,
+  parse_digits b (l1 ++ l2) acc =
+  match parse_digits b l1 acc with Some n => parse_digits b l2 n | None => None end.
+Proof.
+  induction l1 as [|c t IH]; intros acc; [reflexivity|].
+  cbn [app]. rewrite !parse_digits_cons.
+  destruct (c =? 95); [apply IH|].
+  destruct (digit_val c) as [d|]; [|reflexivity].
+  destruct (b <=? d); [reflexivity|apply IH].
+Qed.
+
+Lemma parse_digits_bad b c l1 l2 acc : bad_digit b c -> parse_digits b (l1 ++ c :: l2) acc = None.
+Proof.
+  intros [N95 Hd]. rewrite parse_digits_app.
+  destruct (parse_digits b l1 acc) as [n|]; [|reflexivity].
+  rewrite parse_digits_cons.
+  assert (X : (c =? 95) = false) by lia. rewrite X.
+  destruct (digit_val c) as [d|]; [|reflexivity].
+  assert (Y : (b <=? d) = true) by lia. rewrite Y. reflexivity.
+Qed.
+
+(* ---------- String#to_int ---------- *)
+
+Definition numeral_char (c : Z) : Prop := c = 95 \/ (48 <= c < 128 /\ c <> 95).
+
+Lemma render_chars b ws : b <= 36 -> Forall (wd_ok b) ws -> Forall numeral_char (render_digits ws).
+Proof.
+  intros Hb. induction 1 as [|[[u up] d] ws Hw _ IH]; [constructor|].
+  unfold wd_ok in Hw. cbn [snd] in Hw. rewrite render_digits_cons. apply Forall_app. split; [|exact IH].
+  pose proof (digit_char_rng up d ltac:(lia)) as R.
+  unfold render_digit. destruct u; cbn [app]; repeat constructor; unfold numeral_char; lia.
+Qed.
+
+Lemma render_nonempty ws : ws <> [] -> render_digits ws <> [].
+Proof.
+  destruct ws as [|[[u up] d] ws]; [contradiction|]. intros _. rewrite render_digits_cons.
+  unfold render_digit. destruct u; discriminate.
+Qed.
+
+Lemma parse_ubigint_explicit b s : 2 <= b <= 36 -> s <> [] -> parse_ubigint s b = parse_digits b s 0.
+Proof.
+  intros Hb Hs. destruct s as [|c t]; [contradiction|]. unfold parse_ubigint.
+  assert (X : in_rng 2 36 b = true) by (unfold in_rng; lia). rewrite X. reflexivity.
+Qed.
+
+(* sign handling of ParseBigIntWithErr on a string whose unsigned part starts with a numeral character *)
+Lemma parse_bigint_sign sg s base : s <> [] -> Forall numeral_char s ->
+  parse_bigint (sign_str sg ++ s) base = option_map (sign_apply sg) (parse_ubigint s base).
+Proof.
+  intros Hs HF. destruct s as [|c t]; [contradiction|].
+  inversion HF as [|? ? Hc _]; subst. unfold numeral_char in Hc.
+  destruct sg as [[|]|]; cbn [sign_str app]; unfold parse_bigint.
+  - change (45 =? 43) with false. change (45 =? 45) with true. cbv iota. reflexivity.
+  - change (43 =? 43) with true. cbv iota.
+    destruct (parse_ubigint (c :: t) base); reflexivity.
+  - assert (X1 : (c =? 43) = false) by lia. assert (X2 : (c =? 45) = false) by lia. rewrite X1, X2.
+    destruct (parse_ubigint (c :: t) base); reflexivity.
+Qed.
+
+Theorem to_int_explicit b sg ws : 2 <= b <= 36 -> ws <> [] -> Forall (wd_ok b) ws ->
+  to_int (sign_str sg ++ render_digits ws) b = Some (sign_apply sg (digits_value b ws 0)).
+Proof.
+  intros Hb Hn HF. unfold to_int.
+  rewrite parse_bigint_sign; [|apply render_nonempty; exact Hn|apply (render_chars b); [lia|exact HF]].
+  rewrite parse_ubigint_explicit; [|exact Hb|apply render_nonempty; exact Hn].
+  rewrite parse_digits_written by assumption. reflexivity.
+Qed.
+
+
+Lemma parse_ubigint_prefixed b up ds : prefixed_base b -> ds <> [] ->
+  parse_ubigint (base_prefix up b ++ ds) 0 = parse_digits b ds 0.
+Proof.
+  intros Hb Hd. destruct ds as [|d ds']; [contradiction|].
+  destruct Hb as [-> | [-> | [-> | [-> | -> ]]]]; destruct up; reflexivity.
+Qed.
+
+Lemma base_prefix_chars b up : prefixed_base b ->
+  base_prefix up b <> [] /\ Forall numeral_char (base_prefix up b).
+Proof.
+  intros Hb. destruct Hb as [-> | [-> | [-> | [-> | -> ]]]]; destruct up; cbn;
+    (split; [discriminate|repeat constructor; unfold numeral_char; lia]).
+Qed.
+
+Theorem to_int_prefixed b up sg ws : prefixed_base b -> ws <> [] -> Forall (wd_ok b) ws ->
+  to_int (sign_str sg ++ base_prefix up b ++ render_digits ws) 0 = Some (sign_apply sg (digits_value b ws 0)).
+Proof.
+  intros Hb Hn HF. unfold to_int.
+  assert (B36 : 2 <= b <= 36) by (destruct Hb as [-> | [-> | [-> | [-> | -> ]]]]; lia).
+  destruct (base_prefix_chars b up Hb) as [PN PC].
+  rewrite parse_bigint_sign.
+  - rewrite parse_ubigint_prefixed; [|exact Hb|apply render_nonempty; exact Hn].
+    rewrite parse_digits_written by assumption. reflexivity.
+  - destruct (base_prefix up b); [contradiction|discriminate].
+  - apply Forall_app. split; [exact PC|apply (render_chars b); [lia|exact HF]].
+Qed.
+
+(* no prefix, base 0: DECIMAL, leading zeros included *)
+Definition dec_or_us (c : Z) : Prop := c = 95 \/ 48 <= c <= 57.
+
+Lemma render_dec_chars ws : Forall (wd_ok 10) ws -> Forall dec_or_us (render_digits ws).
+Proof.
+  induction 1 as [|[[u up] d] ws Hw _ IH]; [constructor|].
+  unfold wd_ok in Hw. cbn [snd] in Hw. rewrite render_digits_cons. apply Forall_app. split; [|exact IH].
+  assert (E : digit_char up d = 48 + d) by (unfold digit_char; destruct (d <? 10) eqn:E; [reflexivity|lia]).
+  unfold render_digit. rewrite E. destruct u; cbn [app]; repeat constructor; unfold dec_or_us; lia.
+Qed.
+
+Lemma to_lower_not_prefix c : c = 0 \/ dec_or_us c ->
+  to_lower c <> 98 /\ to_lower c <> 113 /\ to_lower c <> 111 /\ to_lower c <> 100 /\ to_lower c <> 120.
+Proof.
+  intros [->|[->|H]]; [change (to_lower 0) with 32; lia|change (to_lower 95) with 127; lia|].
+  rewrite to_lower_dec by exact H. lia.
+Qed.
+
+Lemma parse_ubigint_dec0 s : s <> [] -> Forall dec_or_us s -> parse_ubigint s 0 = parse_digits 10 s 0.
+Proof.
+  intros Hs HF. destruct s as [|c0 t]; [contradiction|].
+  inversion HF as [|? ? _ HT]; subst.
+  unfold parse_ubigint. change (in_rng 2 36 0) with false. change (0 =? 0) with true. cbv iota.
+  assert (L : hd 0 t = 0 \/ dec_or_us (hd 0 t)).
+  { destruct t as [|c1 t']; [left; reflexivity|]. inversion HT; subst. right. assumption. }
+  destruct (to_lower_not_prefix _ L) as (N1 & N2 & N3 & N4 & N5).
+  set (l1 := to_lower (hd 0 t)) in *.
+  assert (E1 : (l1 =? 98) = false) by lia. assert (E2 : (l1 =? 113) = false) by lia.
+  assert (E3 : (l1 =? 111) = false) by lia. assert (E4 : (l1 =? 100) = false) by lia.
+  assert (E5 : (l1 =? 120) = false) by lia.
+  rewrite E1, E2, E3, E4, E5. rewrite !andb_false_r. reflexivity.
+Qed.
+
+Theorem to_int_decimal0 sg ws : ws <> [] -> Forall (wd_ok 10) ws ->
+  to_int (sign_str sg ++ render_digits ws) 0 = Some (sign_apply sg (digits_value 10 ws 0)).
+Proof.
+  intros Hn HF. unfold to_int.
+  rewrite parse_bigint_sign; [|apply render_nonempty; exact Hn|apply (render_chars 10); [lia|exact HF]].
+  rewrite parse_ubigint_dec0; [|apply render_nonempty; exact Hn|apply render_dec_chars; exact HF].
+  rewrite parse_digits_written by (assumption || lia). reflexivity.
+Qed.
+
+(* never a mis-parse: a character that is neither `_` nor a digit of the base, anywhere in the
+   numeral, makes to_int fail (FormatError), whatever stands around it *)
+Theorem to_int_invalid b sg l1 c l2 : 2 <= b <= 36 ->
+  hd 0 (l1 ++ [c]) <> 43 -> hd 0 (l1 ++ [c]) <> 45 -> bad_digit b c ->
+  to_int (sign_str sg ++ l1 ++ c :: l2) b = None.
+Proof.
+  intros Hb H43 H45 Hbad. unfold to_int.
+  assert (NE : l1 ++ c :: l2 <> []) by (destruct l1; discriminate).
+  assert (U : parse_ubigint (l1 ++ c :: l2) b = None).
+  { rewrite parse_ubigint_explicit by assumption. apply parse_digits_bad. exact Hbad. }
+  destruct sg as [[|]|]; cbn [sign_str app]; unfold parse_bigint.
+  - change (45 =? 43) with false. change (45 =? 45) with true. cbv iota.
+    destruct (l1 ++ c :: l2) eqn:E; [contradiction|]. rewrite U. reflexivity.
+  - change (43 =? 43) with true. cbv iota. destruct (l1 ++ c :: l2) eqn:E; [contradiction|]. exact U.
+  - destruct (l1 ++ c :: l2) as [|h t] eqn:E; [contradiction|].
+    assert (Hh : h = hd 0 (l1 ++ [c])).
+    { destruct l1 as [|a l1']; cbn [app hd] in *; inversion E; reflexivity. }
+    assert (X1 : (h =? 43) = false) by lia. assert (X2 : (h =? 45) = false) by lia. rewrite X1, X2. exact U.
+Qed.
+
+(* ---------- the lexer on a written numeral ---------- *)
+(* what may follow the digits: the end of the input or a sized suffix (`i..`, `u..`) *)
+Definition stopc (rest : list Z) : Prop := match rest with [] => True | c :: _ => c = 105 \/ c = 117 end.
+
+Definition dchar (w : wdigit) : Z := digit_char (snd (fst w)) (snd w).
+
+Lemma consume_stop b fuel rest : stopc rest -> consume_digits (S fuel) b rest = ([], rest).
+Proof.
+  destruct rest as [|c r]; intros H; [reflexivity|].
+  cbn [stopc] in H. cbn [consume_digits]. rewrite peek_ascii by lia.
+  assert (X : (c =? 95) = false) by lia. rewrite X. rewrite peek_ascii by lia.
+  destruct H as [-> | ->]; reflexivity.
+Qed.
+
+Lemma length_render ws : (length ws <= length (render_digits ws))%nat.
+Proof.
+  induction ws as [|[[u up] d] ws IH]; [reflexivity|].
+  rewrite render_digits_cons, app_length. unfold render_digit. destruct u; cbn [length app]; lia.
+Qed.
+
+(* consumeDigits: the lexeme gets the digits without the separators *)
+Lemma consume_written b : 2 <= b <= 16 -> forall ws fuel rest,
+  Forall (wd_ok b) ws -> stopc rest -> (length ws < fuel)%nat ->
+  consume_digits fuel b (render_digits ws ++ rest) = (map dchar ws, rest).
+Proof.
+  intros Hb. induction ws as [|[[u up] d] ws IH]; intros fuel rest HF HS Hf;
+    (destruct fuel as [|f]; [cbn in Hf; lia|]).
+  - cbn [render_digits flat_map app map]. apply consume_stop. exact HS.
+  - inversion HF as [|? ? Hw HT]; subst. unfold wd_ok in Hw. cbn [snd] in Hw.
+    destruct (digit_char_rng up d ltac:(lia)) as [R N95].
+    assert (Step : forall tl0, tl0 = render_digits ws ++ rest ->
+      (let src1 := digit_char up d :: tl0 in
+       if digit_in_set b (peek src1)
+       then let '(ds, r) := consume_digits f b (tl src1) in (peek src1 :: ds, r)
+       else ([], src1)) = (map dchar ((u, up, d) :: ws), rest)).
+    { intros tl0 ->. cbv zeta. rewrite peek_ascii by lia.
+      unfold digit_in_set. rewrite digit_char_hex by lia.
+      assert (Y : (d <? b) = true) by lia. rewrite Y. cbn [tl].
+      rewrite IH; [reflexivity|exact HT|exact HS|cbn in Hf; lia]. }
+    rewrite render_digits_cons. unfold render_digit. destruct u; cbn [app].
+    + cbn [consume_digits]. rewrite peek_ascii by lia. change (95 =? 95) with true. cbv iota. cbn [tl].
+      apply (Step _ eq_refl).
+    + cbn [consume_digits]. rewrite peek_ascii by lia.
+      assert (X : (digit_char up d =? 95) = false) by lia. rewrite X.
+      apply (Step _ eq_refl).
+Qed.
+
+Definition strip (w : wdigit) : wdigit := (false, snd (fst w), snd w).
+
+Lemma render_strip ws : render_digits (map strip ws) = map dchar ws.
+Proof. induction ws as [|[[u up] d] ws IH]; [reflexivity|]. cbn [map]. rewrite render_digits_cons, IH. reflexivity. Qed.
+
+Lemma value_strip b ws : forall acc, digits_value b (map strip ws) acc = digits_value b ws acc.
+Proof. induction ws as [|[[u up] d] ws IH]; intros acc; [reflexivity|]. cbn [map]. rewrite !digits_value_cons. apply IH. Qed.
+
+Lemma ok_strip b ws : Forall (wd_ok b) ws -> Forall (wd_ok b) (map strip ws).
+Proof. induction 1 as [|[[u up] d] ws Hw _ IH]; [constructor|]. cbn [map]. constructor; assumption. Qed.
+
+
+Lemma peek_after_dec ws rest : Forall (wd_ok 10) ws -> stopc rest ->
+  let p := peek (render_digits ws ++ rest) in p = 0 \/ p = 95 \/ 48 <= p <= 57 \/ p = 105 \/ p = 117.
+Proof.
+  intros HF HS. destruct ws as [|[[u up] d] ws].
+  - cbn [render_digits flat_map app]. destruct rest as [|c r]; [left; reflexivity|].
+    cbn [stopc] in HS. cbv zeta. rewrite peek_ascii by lia. lia.
+  - inversion HF as [|? ? Hw _]; subst. unfold wd_ok in Hw. cbn [snd] in Hw.
+    assert (E : digit_char up d = 48 + d) by (unfold digit_char; destruct (d <? 10) eqn:E; [reflexivity|lia]).
+    rewrite render_digits_cons. unfold render_digit. rewrite E.
+    destruct u; cbn [app]; cbv zeta; rewrite peek_ascii by lia; lia.
+Qed.
+
+Lemma lex_number_dec ws rest : ws <> [] -> Forall (wd_ok 10) ws -> first_plain ws -> stopc rest ->
+  lex_number (render_digits ws ++ rest) = Some (map dchar ws, rest).
+Proof.
+  intros Hn HF HP HS. destruct ws as [|[[u up] d] ws]; [contradiction|].
+  cbn [first_plain fst] in HP. subst u.
+  inversion HF as [|? ? Hw HT]; subst. unfold wd_ok in Hw. cbn [snd] in Hw.
+  assert (E : digit_char up d = 48 + d) by (unfold digit_char; destruct (d <? 10) eqn:E; [reflexivity|lia]).
+  rewrite render_digits_cons. unfold render_digit. cbn [app map]. unfold dchar at 1. cbn [fst snd]. rewrite E.
+  unfold lex_number.
+  assert (X : in_rng 48 57 (48 + d) = true) by (unfold in_rng; lia). rewrite X. cbn [negb].
+  pose proof (peek_after_dec ws rest HT HS) as P. cbv zeta in P.
+  set (t := render_digits ws ++ rest) in *. set (p := peek t) in *.
+  assert (E1 : (p =? 120) = false) by lia. assert (E2 : (p =? 88) = false) by lia.
+  assert (E3 : (p =? 100) = false) by lia. assert (E4 : (p =? 68) = false) by lia.
+  assert (E5 : (p =? 111) = false) by lia. assert (E6 : (p =? 79) = false) by lia.
+  assert (E7 : (p =? 113) = false) by lia. assert (E8 : (p =? 81) = false) by lia.
+  assert (E9 : (p =? 98) = false) by lia. assert (E10 : (p =? 66) = false) by lia.
+  rewrite E1, E2, E3, E4, E5, E6, E7, E8, E9, E10. cbn [orb].
+  replace (if 48 + d =? 48 then (@nil Z, 10, t) else ([], 10, t)) with (@nil Z, 10, t) by (destruct (48 + d =? 48); reflexivity).
+  subst t. rewrite consume_written; [reflexivity|lia|exact HT|exact HS|].
+  pose proof (length_render ws). rewrite app_length. lia.
+Qed.
+
+Lemma lex_number_prefixed b up ws rest : prefixed_base b -> Forall (wd_ok b) ws -> stopc rest ->
+  lex_number (base_prefix up b ++ render_digits ws ++ rest) = Some (base_prefix false b ++ map dchar ws, rest).
+Proof.
+  intros Hb HF HS.
+  assert (L : (length ws < S (length (render_digits ws ++ rest)))%nat).
+  { pose proof (length_render ws). rewrite app_length. lia. }
+  destruct Hb as [-> | [-> | [-> | [-> | -> ]]]]; destruct up;
+    cbn [base_prefix Z.eqb Pos.eqb app]; unfold lex_number;
+    change (in_rng 48 57 48) with true; cbn [negb]; rewrite peek_ascii by lia;
+    cbn [Z.eqb Pos.eqb orb tl]; rewrite consume_written by (assumption || lia); reflexivity.
+Qed.
+
+(* ---------- StrictParseUint: the machine-word loop with its overflow tests ---------- *)
+Lemma digits_value_ge b ws : 1 <= b -> Forall (wd_ok b) ws -> forall acc, 0 <= acc -> acc <= digits_value b ws acc.
+Proof.
+  intros Hb. induction 1 as [|[[u up] d] ws Hw _ IH]; intros acc Ha; [cbn; lia|].
+  unfold wd_ok in Hw. cbn [snd] in Hw. rewrite digits_value_cons. cbn [snd].
+  assert (acc <= acc * b + d) by nia. specialize (IH (acc * b + d) ltac:(lia)). lia.
+Qed.
+
+Lemma strict_digits_cons base maxv c t n :
+  strict_digits base maxv (c :: t) n =
+  if c =? 95 then strict_digits base maxv t n
+  else match digit_val c with
+       | None => None
+       | Some d =>
+         if base <=? d then None
+         else if max_u64 / base + 1 <=? n then None
+         else let n0 := (n * base) mod two64 in
+              let n1 := (n0 + d) mod two64 in
+              if (n1 <? n0) || (maxv <? n1) then None else strict_digits base maxv t n1
+       end.
+Proof. reflexivity. Qed.
+
+Lemma strict_digits_written b maxv : 2 <= b <= 36 -> 0 <= maxv < two64 ->
+  forall ws n, Forall (wd_ok b) ws -> 0 <= n <= maxv ->
+  strict_digits b maxv (render_digits ws) n =
+  if digits_value b ws n <=? maxv then Some (digits_value b ws n) else None.
+Proof.
+  intros Hb Hm. induction ws as [|[[u up] d] ws IH]; intros n HF Hn.
+  - cbn [render_digits flat_map strict_digits digits_value fold_left].
+    assert (X : (n <=? maxv) = true) by lia. rewrite X. reflexivity.
+  - inversion HF as [|? ? Hw HT]; subst. unfold wd_ok in Hw. cbn [snd] in Hw.
+    rewrite render_digits_cons, digits_value_cons. cbn [snd].
+    destruct (digit_char_rng up d ltac:(lia)) as [R N95].
+    pose proof (digits_value_ge b ws ltac:(lia) HT) as GE.
+    assert (Step : strict_digits b maxv (digit_char up d :: render_digits ws) n =
+                   if digits_value b ws (n * b + d) <=? maxv then Some (digits_value b ws (n * b + d)) else None).
+    { rewrite strict_digits_cons.
+      assert (X : (digit_char up d =? 95) = false) by lia. rewrite X.
+      rewrite digit_char_val by lia.
+      assert (Y : (b <=? d) = false) by lia. rewrite Y.
+      assert (NB : 0 <= n * b) by nia.
+      specialize (GE (n * b + d) ltac:(lia)).
+      pose proof (Z.mul_div_le max_u64 b ltac:(lia)) as DL.
+      pose proof (Z.mul_succ_div_gt max_u64 b ltac:(lia)) as DG.
+      assert (Q0 : 0 <= max_u64 / b) by (apply Z.div_pos; unfold max_u64; lia).
+      set (q := max_u64 / b) in *.
+      destruct (q + 1 <=? n) eqn:C.
+      - (* n*b already exceeds 2^64-1 *)
+        assert (max_u64 < n * b) by nia.
+        assert (Z : (digits_value b ws (n * b + d) <=? maxv) = false) by (unfold two64, max_u64 in *; lia).
+        rewrite Z. reflexivity.
+      - assert (NBU : n * b <= max_u64) by nia.
+        cbv zeta. set (m := n * b) in *.
+        rewrite (Z.mod_small m two64) by (unfold two64, max_u64 in *; lia).
+        destruct (Z_lt_ge_dec (m + d) two64) as [Small|Wrap].
+        + rewrite (Z.mod_small (m + d) two64) by lia.
+          assert (W : (m + d <? m) = false) by lia. rewrite W. cbn [orb].
+          destruct (maxv <? m + d) eqn:M.
+          * assert (Z : (digits_value b ws (m + d) <=? maxv) = false) by lia. rewrite Z. reflexivity.
+          * apply IH; [exact HT|lia].
+        + assert (E : (m + d) mod two64 = m + d - two64).
+          { symmetry. apply (Z.mod_unique (m + d) two64 1); unfold two64, max_u64 in *; lia. }
+          rewrite E.
+          assert (W : (m + d - two64 <? m) = true) by (unfold two64 in *; lia). rewrite W. cbn [orb].
+          assert (Z : (digits_value b ws (m + d) <=? maxv) = false) by lia. rewrite Z. reflexivity. }
+    unfold render_digit. destruct u; cbn [app].
+    + rewrite strict_digits_cons. change (95 =? 95) with true. cbv iota. exact Step.
+    + exact Step.
+Qed.
+
+(* ---------- the value of a token ---------- *)
+Definition lexeme_of (b : Z) (ws : list wdigit) : list Z := base_prefix false b ++ map dchar ws.
+
+Lemma base_prefix_10 up : base_prefix up 10 = [].
+Proof. reflexivity. Qed.
+
+Lemma dchars_dec ws : Forall (wd_ok 10) ws -> Forall dec_or_us (map dchar ws).
+Proof. intros H. rewrite <- render_strip. apply render_dec_chars. apply ok_strip. exact H. Qed.
+
+Lemma dchars_nonempty ws : ws <> [] -> map dchar ws <> [].
+Proof. destruct ws; [contradiction|discriminate]. Qed.
+
+Lemma int_prefix_lexeme b ws : lexer_base b -> ws <> [] -> Forall (wd_ok b) ws ->
+  int_prefix (lexeme_of b ws) 0 = Some (b, map dchar ws).
+Proof.
+  intros Hb Hn HF. unfold lexeme_of. destruct Hb as [-> | Hb].
+  - rewrite base_prefix_10. cbn [app].
+    pose proof (dchars_dec ws HF) as D. pose proof (dchars_nonempty ws Hn) as NE.
+    destruct (map dchar ws) as [|c0 t]; [contradiction|].
+    inversion D as [|? ? _ HT]; subst.
+    unfold int_prefix. change (in_rng 2 36 0) with false. change (0 =? 0) with true. cbv iota.
+    assert (L : hd 0 t = 0 \/ dec_or_us (hd 0 t)).
+    { destruct t as [|c1 t']; [left; reflexivity|]. inversion HT; subst. right. assumption. }
+    destruct (to_lower_not_prefix _ L) as (N1 & N2 & N3 & N4 & N5).
+    set (l1 := to_lower (hd 0 t)) in *.
+    assert (E1 : (l1 =? 98) = false) by lia. assert (E2 : (l1 =? 113) = false) by lia.
+    assert (E3 : (l1 =? 111) = false) by lia. assert (E4 : (l1 =? 100) = false) by lia.
+    assert (E5 : (l1 =? 120) = false) by lia.
+    rewrite E1, E2, E3, E4, E5. rewrite !andb_false_r. reflexivity.
+  - pose proof (dchars_nonempty ws Hn) as NE.
+    destruct (map dchar ws) as [|c0 t]; [contradiction|].
+    destruct Hb as [-> | [-> | [-> | [-> | -> ]]]]; reflexivity.
+Qed.
+
+Lemma strict_digits_dchars b maxv ws : 2 <= b <= 36 -> 0 <= maxv < two64 -> Forall (wd_ok b) ws ->
+  strict_digits b maxv (map dchar ws) 0 =
+  if digits_value b ws 0 <=? maxv then Some (digits_value b ws 0) else None.
+Proof.
+  intros Hb Hm HF. rewrite <- render_strip.
+  rewrite strict_digits_written; [|exact Hb|exact Hm|apply ok_strip; exact HF|lia].
+  rewrite value_strip. reflexivity.
+Qed.
+
+Lemma lexer_base_rng b : lexer_base b -> 2 <= b <= 16.
+Proof. intros [-> | [-> | [-> | [-> | [-> | -> ]]]]]; lia. Qed.
+
+Definition bits_ok (bits : Z) : Prop := bits = 8 \/ bits = 16 \/ bits = 32 \/ bits = 64.
+
+Lemma strict_parse_uint_lexeme b ws bits : lexer_base b -> ws <> [] -> Forall (wd_ok b) ws -> bits_ok bits ->
+  strict_parse_uint (lexeme_of b ws) 0 bits =
+  if digits_value b ws 0 <? 2 ^ bits then Some (digits_value b ws 0) else None.
+Proof.
+  intros Hb Hn HF HB. unfold strict_parse_uint. rewrite int_prefix_lexeme by assumption.
+  pose proof (lexer_base_rng b Hb) as R.
+  rewrite strict_digits_dchars; [|lia|destruct HB as [-> | [-> | [-> | -> ]]]; unfold two64; cbn; lia|exact HF].
+  destruct (digits_value b ws 0 <=? 2 ^ bits - 1) eqn:E1; destruct (digits_value b ws 0 <? 2 ^ bits) eqn:E2; try reflexivity; lia.
+Qed.
+
+Lemma lexeme_head b ws : lexer_base b -> ws <> [] -> Forall (wd_ok b) ws -> (b = 10 -> first_plain ws) ->
+  exists c t, lexeme_of b ws = c :: t /\ 48 <= c <= 57.
+Proof.
+  intros Hb Hn HF HP. unfold lexeme_of. destruct Hb as [-> | Hb].
+  - pose proof (dchars_dec ws HF) as D. destruct ws as [|w ws]; [contradiction|].
+    rewrite base_prefix_10. cbn [app map]. exists (dchar w), (map dchar ws). split; [reflexivity|].
+    inversion HF as [|? ? Hw _]; subst. destruct w as [[u up] d]. unfold wd_ok in Hw. cbn [snd] in Hw.
+    unfold dchar, digit_char. cbn [fst snd]. destruct (d <? 10) eqn:E; lia.
+  - destruct Hb as [-> | [-> | [-> | [-> | -> ]]]]; cbn [base_prefix Z.eqb Pos.eqb app]; eexists; eexists; (split; [reflexivity|lia]).
+Qed.
+
+Lemma strict_parse_int_lexeme b ws bits : lexer_base b -> ws <> [] -> Forall (wd_ok b) ws -> (b = 10 -> first_plain ws) ->
+  bits_ok bits ->
+  strict_parse_int (lexeme_of b ws) 0 bits =
+  if digits_value b ws 0 <? 2 ^ (bits - 1) then Some (digits_value b ws 0) else None.
+Proof.
+  intros Hb Hn HF HP HB.
+  pose proof (strict_parse_uint_lexeme b ws bits Hb Hn HF HB) as U.
+  destruct (lexeme_head b ws Hb Hn HF HP) as (c & t & E & Hc). rewrite E in *.
+  unfold strict_parse_int.
+  assert (X1 : (c =? 43) = false) by lia. assert (X2 : (c =? 45) = false) by lia. rewrite X1, X2. cbn [orb negb andb].
+  rewrite U.
+  pose proof (lexer_base_rng b Hb) as R.
+  pose proof (digits_value_ge b ws ltac:(lia) HF 0 ltac:(lia)) as GE.
+  assert (P : 2 ^ (bits - 1) < 2 ^ bits) by (destruct HB as [-> | [-> | [-> | -> ]]]; cbn; lia).
+  destruct (digits_value b ws 0 <? 2 ^ bits) eqn:E1; destruct (digits_value b ws 0 <? 2 ^ (bits - 1)) eqn:E2; try lia.
+  - assert (Y : (2 ^ (bits - 1) <=? digits_value b ws 0) = false) by lia. rewrite Y. reflexivity.
+  - assert (Y : (2 ^ (bits - 1) <=? digits_value b ws 0) = true) by lia. rewrite Y. reflexivity.
+  - reflexivity.
+Qed.
+
+Lemma parse_bigint_lexeme b ws : lexer_base b -> ws <> [] -> Forall (wd_ok b) ws ->
+  parse_bigint (lexeme_of b ws) 0 = Some (digits_value b ws 0).
+Proof.
+  intros Hb Hn HF. unfold lexeme_of. rewrite <- render_strip.
+  pose proof (ok_strip b ws HF) as HF'.
+  assert (Hn' : map strip ws <> []) by (destruct ws; [contradiction|discriminate]).
+  rewrite <- (value_strip b ws 0).
+  destruct Hb as [-> | Hb].
+  - rewrite base_prefix_10. cbn [app]. exact (to_int_decimal0 None (map strip ws) Hn' HF').
+  - exact (to_int_prefixed b false None (map strip ws) Hb Hn' HF').
+Qed.
+
+(* suffix and range of every integer token kind *)
+
+Lemma eval_token_lexeme k b ws : lexer_base b -> ws <> [] -> Forall (wd_ok b) ws -> (b = 10 -> first_plain ws) ->
+  eval_token k (lexeme_of b ws) = if in_bound k (digits_value b ws 0) then Some (digits_value b ws 0) else None.
+Proof.
+  intros Hb Hn HF HP. unfold in_bound.
+  destruct k; cbn [eval_token tok_bound].
+  - apply parse_bigint_lexeme; assumption.
+  - rewrite strict_parse_int_lexeme by (assumption || (unfold bits_ok; lia)). reflexivity.
+  - rewrite strict_parse_int_lexeme by (assumption || (unfold bits_ok; lia)). reflexivity.
+  - rewrite strict_parse_int_lexeme by (assumption || (unfold bits_ok; lia)). reflexivity.
+  - rewrite strict_parse_int_lexeme by (assumption || (unfold bits_ok; lia)). reflexivity.
+  - rewrite strict_parse_uint_lexeme by (assumption || (unfold bits_ok; lia)). reflexivity.
+  - rewrite strict_parse_uint_lexeme by (assumption || (unfold bits_ok; lia)). reflexivity.
+  - rewrite strict_parse_uint_lexeme by (assumption || (unfold bits_ok; lia)). reflexivity.
+  - rewrite strict_parse_uint_lexeme by (assumption || (unfold bits_ok; lia)). reflexivity.
+  - rewrite strict_parse_uint_lexeme by (assumption || (unfold bits_ok; lia)). reflexivity.
+Qed.
+
+Lemma suffix_stop k : stopc (tok_suffix k) /\ int_suffix (tok_suffix k) = Some k.
+Proof. destruct k; (split; [cbn; auto|reflexivity]). Qed.
+
+Lemma number_token_written k b up ws : lexer_base b -> ws <> [] -> Forall (wd_ok b) ws -> (b = 10 -> first_plain ws) ->
+  number_token (base_prefix up b ++ render_digits ws ++ tok_suffix k) = Some (k, lexeme_of b ws).
+Proof.
+  intros Hb Hn HF HP. destruct (suffix_stop k) as [HS HK]. unfold number_token, lexeme_of.
+  destruct Hb as [-> | Hb].
+  - rewrite !base_prefix_10. cbn [app]. rewrite lex_number_dec by auto. rewrite HK. reflexivity.
+  - rewrite lex_number_prefixed by assumption. rewrite HK. reflexivity.
+Qed.
+
+(* MAIN: a literal as written - any lexer base, prefix in either case, `_` separators, leading
+   zeros, any sized suffix, optional unary sign in front of a signed kind - evaluates to exactly
+   the written positional value, or is rejected iff that value does not fit the suffix's width *)
+Theorem literal_value k b up sg ws :
+  lexer_base b -> ws <> [] -> Forall (wd_ok b) ws -> (b = 10 -> first_plain ws) ->
+  (sg <> None -> tok_signed k = true) ->
+  eval_literal (sign_str sg ++ base_prefix up b ++ render_digits ws ++ tok_suffix k) =
+  if in_bound k (digits_value b ws 0) then Some (k, sign_apply sg (digits_value b ws 0)) else None.
+Proof.
+  intros Hb Hn HF HP HS.
+  pose proof (number_token_written k b up ws Hb Hn HF HP) as NT.
+  pose proof (eval_token_lexeme k b ws Hb Hn HF HP) as ET.
+  set (body := base_prefix up b ++ render_digits ws ++ tok_suffix k) in *.
+  assert (HH : exists c t, body = c :: t /\ 48 <= c <= 57).
+  { subst body. destruct Hb as [-> | Hb].
+    - destruct ws as [|[[u up0] d] ws]; [contradiction|]. specialize (HP eq_refl). cbn [first_plain fst] in HP. subst u.
+      inversion HF as [|? ? Hw _]; subst. unfold wd_ok in Hw. cbn [snd] in Hw.
+      rewrite base_prefix_10, render_digits_cons. unfold render_digit. cbn [app].
+      eexists; eexists; split; [reflexivity|]. unfold digit_char. destruct (d <? 10) eqn:E; lia.
+    - destruct Hb as [-> | [-> | [-> | [-> | -> ]]]]; destruct up; cbn [base_prefix Z.eqb Pos.eqb app];
+        eexists; eexists; (split; [reflexivity|lia]). }
+  destruct HH as (c & t & EB & Hc).
+  unfold eval_literal.
+  destruct sg as [[|]|]; cbn [sign_str app hd tl].
+  - change (45 =? 45) with true. cbn [orb]. rewrite NT, ET.
+    destruct (in_bound k (digits_value b ws 0)); [|reflexivity].
+    rewrite (HS ltac:(discriminate)). reflexivity.
+  - change (43 =? 45) with false. change (43 =? 43) with true. cbn [orb]. rewrite NT, ET.
+    destruct (in_bound k (digits_value b ws 0)); [|reflexivity].
+    rewrite (HS ltac:(discriminate)). reflexivity.
+  - rewrite EB. cbn [hd].
+    assert (X1 : (c =? 45) = false) by lia. assert (X2 : (c =? 43) = false) by lia. rewrite X1, X2. cbn [orb].
+    rewrite <- EB. rewrite NT, ET.
+    destruct (in_bound k (digits_value b ws 0)); reflexivity.
+Qed.
